@@ -606,6 +606,22 @@ def r06_18(chk):
     chk.floor("R06.18", 1, "open_")
 
 
+def r06_19(chk):
+    chk.rule("R06.19", "a format name means the same to the writer and the reader: the writer normalises it (`format.lower()` in write_alignment_to_file) before looking up its formatter, so the reader's lookup (parse.sequence.get_parser) normalises the name the same way before indexing PARSERS -- otherwise write(path, format='FASTA') succeeds and load_aligned_seqs(path, format='FASTA') raises Unsupported format")
+    w = chk.repo.module("format/alignment.py").func("write_alignment_to_file")
+    wl = any(isinstance(c, ast.Call) and isinstance(c.func, ast.Attribute) and c.func.attr == "lower" and norm(c.func.value) == "format" for c in walk_no_nested(w))
+    m = chk.repo.module("parse/sequence.py")
+    fn = m.func("get_parser")
+    p0 = params_of(fn)[0]
+    rl = any(isinstance(c, ast.Call) and isinstance(c.func, ast.Attribute) and c.func.attr in ("lower", "casefold") and norm(c.func.value) == p0 for c in walk_no_nested(fn))
+    k = key(m, "get_parser", "format name normalised like the writer's")
+    if not wl:
+        chk.ok("R06.19", k, m.loc(fn), "the writer does not normalise the name either", nontrivial=False)
+    else:
+        chk.decide(rl, "R06.19", k, m.loc(fn), f"{p0}.lower() before the lookup", f"the writer lower-cases the format name but get_parser indexes PARSERS with `{p0}` as given: aln.write('y.txt', format='FASTA') works, load_aligned_seqs('y.txt', format='FASTA') raises ValueError: Unsupported format 'FASTA'")
+    chk.floor("R06.19", 1, "get_parser")
+
+
 def r06_9(chk):
     chk.rule("R06.9", "GenBank bytes parser: records are split on the line-anchored terminator b'\\n//'; because that separator begins with the newline of the previous line, every later piece starts with a newline -- the piece is left-trimmed before its first line (LOCUS) is taken, and the guard that skips the piece after the last terminator also covers the empty piece (`not piece`, not just piece.isspace())")
     from ..cfg import build
@@ -694,6 +710,7 @@ def r06_11(chk):
 
 
 def run(chk):
+    r06_19(chk)
     r06_18(chk)
     r06_17(chk)
     r06_16(chk)
